@@ -40,5 +40,5 @@ PROPERTIES = {
     'C07': dict(obligations=['TOK-IGN'], not_decided='that every later pass skips CT_IGNORED chunks; regex markers; the writer side (OUT-IGN).'),
     'C08': dict(obligations=['TOK-WS', 'TOK-NL', 'TOK-BSNL', 'TOK-IGN']),
     'C02': dict(obligations=['TOK-WS', 'TOK-NL', 'TOK-BSNL', 'TOK-NUM'], not_decided='the ~40 passes between tokenizer and output.'),
-    'C06': dict(obligations=['TOK-WS', 'TOK-NL', 'TOK-BSNL', 'TOK-IGN'], not_decided='parser passes after tokenizing, indent_text, the convergence loops.'),
+    'C06': dict(obligations=['TOK-WS', 'TOK-NL', 'TOK-BSNL', 'TOK-IGN', 'TOK-STR', 'TOK-NUM'], not_decided='parser passes after tokenizing, indent_text, the convergence loops.'),
 }
